@@ -22,17 +22,21 @@ SCALES = ("none", "p6", "pm6", "q6", "qm6")
 NO_MARKS = ("DoMarkNewer", "DoMarkStale", "MarkNewer", "MarkStale")
 
 
-def model_check(ctx, with_fills_model):
+def model_check(ctx, with_fills_model, with_nonpos_fills=False):
     """Small configurations with -coverage (vacuity: every arm of Fill and both Mark actions taken);
-    the deeper thorough configurations without it (-coverage makes TLC 3-7x slower here)."""
-    ctx.tlc_mc(MODULE, "MC_Position.cfg", timeout=600)
+    the deeper ones without it (-coverage makes TLC 3-7x slower here). Module MC_Position only adds
+    the signed price sets (0 and negative market prices; for C15 also such fill prices)."""
+    mc = "MC_" + MODULE
+    ctx.tlc_mc(mc, "MC_Position.cfg", timeout=600)
     if with_fills_model:
-        ctx.tlc_mc(MODULE, "MC_Position_fills.cfg", timeout=600, ignore_uncovered=NO_MARKS)
+        ctx.tlc_mc(mc, "MC_Position_fills.cfg", timeout=600, ignore_uncovered=NO_MARKS)
+    if with_nonpos_fills:
+        ctx.tlc_mc(mc, "MC_Position_nonpos.cfg", timeout=900, coverage=False)
     if not ctx.quick:
-        ctx.tlc_mc(MODULE, "MC_Position_thorough.cfg", timeout=1500, coverage=False)
+        ctx.tlc_mc(mc, "MC_Position_thorough.cfg", timeout=1500, coverage=False)
         if with_fills_model:
-            ctx.tlc_mc(MODULE, "MC_Position_fills_thorough.cfg", timeout=1500, coverage=False)
-            ctx.tlc_mc(MODULE, "MC_Position_fills_deep.cfg", timeout=1500, coverage=False)
+            ctx.tlc_mc(mc, "MC_Position_fills_thorough.cfg", timeout=1500, coverage=False)
+            ctx.tlc_mc(mc, "MC_Position_fills_deep.cfg", timeout=1500, coverage=False)
 
 
 def generate(ctx, cfg, name, simulate=None):
@@ -229,7 +233,8 @@ def validate_trace(ctx, trace_path, focus, mode, label):
 
 def record_and_validate(ctx, binname, focus, mode, steps):
     out = ctx.path("trace_random_%s_%s.ndjson" % (focus, mode))
-    info = ctx.harness(binname, "random", "--seed", ctx.seed, "--steps", steps, "--out", out, "--mode", mode)
+    info = ctx.harness(binname, "random", "--seed", ctx.seed, "--steps", steps, "--out", out, "--mode", mode,
+                       "--nonpos-fills", 1 if focus == "c15" else 0)
     validate_trace(ctx, out, focus, mode, "random/" + mode)
     return info
 
